@@ -13,6 +13,7 @@ from concurrent.futures import ThreadPoolExecutor
 from vlib import tlc, tlaval, gorun, core
 
 PROPS = ['C11']
+WAKE_SLUG = 'wakeup-bare-send'
 PKEYS = {'read': ('need', 'chunks', 'maxarr', 'deadlines', 'events', 'maxt', 'inittok'),
          'flush': ('qcap', 'preload', 'maxretry', 'wdeadline', 'maxt'), 'accept': ('maxbacklog',),
          'send': ('scap', 'spre', 'cwt', 'maxt')}
@@ -85,7 +86,7 @@ ALLEV = ['arr', 'half', 'close', 'sess']
 
 
 def configs(tier):
-    quick = mkrun('q', ['read', 'flush', 'accept'], [
+    quick = mkrun('q', ['read', 'flush', 'accept', 'send'], [
         # one read without deadline, every releasing event, stale or no notification token at entry
         rcfg(1, [0], [1, 2], 2, ALLEV, 0, [0, 1]),
         # two reads with deadlines (timer reuse across calls), data and peer close
@@ -163,13 +164,22 @@ def proj_accept(st):
     return {'pos': st['apc'], 'res': st['ares'], 'backlog': st['backlog'], 'sess': st['asess']}
 
 
-PROJ = {'read': proj_read, 'flush': proj_flush, 'accept': proj_accept}
+def proj_send(st):
+    qlen = st['ahead'] + st['behind'] + (1 if st['mine'] == 'queued' else 0)
+    return {'wpos': 'idle' if st['spc'] == 'idle' else 'blocked', 'res': st['sres'],
+            'kpos': {'idle': 'idle', 'send': 'blocked', 'done': 'done'}[st['kpc']], 'full': qlen >= SCAP[0],
+            'sess': st['ssess'], 'wblk': st['wblk'], 'now': st['now']}
+
+
+SCAP = [2]
+SENDINT = ('SEnq', 'SShut', 'STimeout', 'SAck', 'STimerFire', 'LoopTake', 'LoopWritten', 'LoopWriteFails', 'LoopExit', 'KSend')
+PROJ = {'read': proj_read, 'flush': proj_flush, 'accept': proj_accept, 'send': proj_send}
 INTERNAL = {'read': lambda a: a.startswith('R_') or a == 'TimerFire',
             'flush': lambda a: a.startswith('FWait') or a == 'FAttempt',
-            'accept': lambda a: a.startswith('ASel')}
+            'accept': lambda a: a.startswith('ASel'), 'send': lambda a: a in SENDINT}
 WAITER = {'read': lambda a: a.startswith('R_'),
           'flush': lambda a: a.startswith('FWait') or a == 'FAttempt',
-          'accept': lambda a: a.startswith('ASel')}
+          'accept': lambda a: a.startswith('ASel'), 'send': lambda a: a in SENDINT}
 
 
 def obs_match(p, obs):
@@ -226,6 +236,43 @@ def validate(g, run):
     return True, '', covered
 
 
+def greedy(scheds, paths, b, rng):
+    """choose b of the cover paths: greedily those that add most spec transitions not yet on a chosen path (seeded ties)"""
+    order = list(range(len(scheds)))
+    rng.shuffle(order)
+    sets = {i: set(paths[i]) for i in order}
+    chosen, covered = [], set()
+    cand = order[:4000]
+    for _ in range(b):
+        best, gain = None, -1
+        for i in cand:
+            gn = len(sets[i] - covered)
+            if gn > gain:
+                best, gain = i, gn
+        if best is None or gain <= 0:
+            break
+        chosen.append(best)
+        covered |= sets[best]
+        cand.remove(best)
+    rest = [i for i in order if i not in set(chosen)]
+    chosen += rest[:b - len(chosen)]
+    return [scheds[i] for i in chosen]
+
+
+def spec_path(g, mode, labels):
+    """follow the action labels from the initial state of `mode`; None if it is not a path of the graph"""
+    cur = [n for n in g.inits if g.state(n)['mode'] == mode]
+    if not cur:
+        return None
+    n = cur[0]
+    for a in labels:
+        nxt = [d for (l, d, _i) in g.out.get(n, []) if label(l)[0] == a]
+        if not nxt:
+            return None
+        n = nxt[0]
+    return n
+
+
 def schedules_from(g, rng, budget):
     """edge-cover paths per initial state (= per mode and configuration); budget = {mode: max paths per init}"""
     scheds, totals = [], {}
@@ -245,14 +292,14 @@ def schedules_from(g, rng, budget):
             sc = {'name': '%s-%s%d-%s-%d' % (g.cfg['name'], mode, cid, init[-4:], pi), 'mode': mode, 'cid': cid, 'steps': steps,
                   'init_tok': st.get('tok', 0), 'need': g.cfg['consts']['need'], 'deadlines': list(st['rc']['dl']),
                   'qcap': st['fc']['qcap'], 'preload': st['fc']['preload'], 'wdeadline': st['fc']['wdl'],
+                  'scap': g.cfg['consts']['scap'], 'spre': g.cfg['consts']['spre'], 'cwt': g.cfg['consts']['cwt'],
                   'peer_died': False}
             mine.append(sc)
         key = '%s%d' % (mode, cid)
         totals[key] = totals.get(key, 0) + len(mine)
         b = budget.get(mode)
         if b and len(mine) > b:
-            rng.shuffle(mine)
-            mine = mine[:b]
+            mine = greedy(mine, paths, b, rng)
         # every other session close of the read schedules is "the peer disappeared" (exitErr) instead of Close()
         for k_, sc in enumerate(mine):
             sc['peer_died'] = (k_ % 2 == 1)
@@ -261,8 +308,36 @@ def schedules_from(g, rng, budget):
 
 
 def run_tlc(cfg):
-    res, nodes, edges, inits = tlc.dump_graph(cfg['module'], cfg['cfg'], timeout=1500, workers=4, extra_files=cfg['files'])
-    return cfg, res, nodes, edges, inits
+    """exhaustive check (invariants + temporal properties, liveness checked once on the complete graph) + state graph"""
+    wd = tlc.scratch('vblk')
+    try:
+        res = tlc.run(cfg['module'], cfg['cfg'], workers=4, timeout=1500, extra_files=cfg['files'], workdir=wd,
+                      tlc_args=['-lncheck', 'final', '-dump', 'dot,actionlabels', 'graph.dot'])
+        nodes, edges, inits = {}, [], []
+        path = os.path.join(wd, 'graph.dot')
+        if os.path.exists(path):
+            with open(path) as fh:
+                for line in fh:
+                    m = tlc._edge.match(line)
+                    if m:
+                        edges.append((m.group(1), m.group(2), m.group(3)))
+                        continue
+                    m = tlc._node.match(line)
+                    if m:
+                        nodes[m.group(1)] = tlc._unesc(m.group(2))
+                        if 'style = filled' in line:
+                            inits.append(m.group(1))
+        return cfg, res, nodes, edges, inits
+    finally:
+        shutil.rmtree(wd, ignore_errors=True)
+
+
+def run_wake_lead(consts):
+    """the bare `sendCh <- x` of wakeUpPeer's slow path: TLC is asked for WakeReturns and is expected to refute it"""
+    cfg = mkrun('wake', ['send'], [], [], scap=consts['scap'], spre=consts['spre'], cwt=consts['cwt'], smaxt=consts['smaxt'],
+                props=['WakeReturns'], invs=[])
+    res = tlc.run(cfg['module'], cfg['cfg'], workers=2, timeout=900, extra_files=cfg['files'], tlc_args=['-lncheck', 'final'])
+    return cfg, res
 
 
 def run(prop, tier, seed, replay=None):
@@ -284,6 +359,8 @@ def run(prop, tier, seed, replay=None):
     ex = ThreadPoolExecutor(max_workers=4)
     # compile the instrumented package while TLC runs (the second go test then hits the build cache)
     warm = ex.submit(lambda: gorun.run_harness('^TestVS_Blocking$', HARNESS, INSTR, inputs={'job': {'schedules': []}}, timeout=900))
+    SCAP[0] = cfgs[0]['consts']['scap']
+    wake = ex.submit(run_wake_lead, cfgs[0]['consts'])
     graphs = []
     for (cfg, res, nodes, edges, inits) in ex.map(run_tlc, cfgs):
         if res.violation:
@@ -305,7 +382,8 @@ def run(prop, tier, seed, replay=None):
         return ck.finish()
     ck.cov['exhaustive'] = True
 
-    budget = {'read': 60, 'flush': 30, 'accept': 40} if ck.tier == 'quick' else {'read': 1500, 'flush': 300, 'accept': 100}
+    budget = {'read': 60, 'flush': 25, 'accept': 40, 'send': 40} if ck.tier == 'quick' else \
+        {'read': 1500, 'flush': 300, 'accept': 100, 'send': 400}
     allsched, bygraph = [], {}
     for g in graphs:
         sc, totals = schedules_from(g, rng, budget)
@@ -314,11 +392,39 @@ def run(prop, tier, seed, replay=None):
         for s in sc:
             bygraph[s['name']] = (g, s)
         allsched += sc
+    # the lead on the bare send: TLC's counterexample to WakeReturns becomes a schedule staged on the real code
+    wcfg, wres = wake.result()
+    known_wake = ('C11', WAKE_SLUG) in known
+    refuted = 'Temporal property WakeReturns was violated' in wres.out or wres.violation == 'temporal'
+    if refuted:
+        trace = tlc.parse_error_trace(wres.out)
+        ck.cov['wake_lead'] = ('TLC refutes WakeReturns on the specification (%d-state counterexample, %d distinct states, %.0fs): '
+                               '%s' % (len(trace), wres.distinct, wres.wall, ' '.join(label(l)[0] for (l, _s) in trace[1:])))
+        ck.add('states', wres.distinct)
+        ck.add('transitions', wres.generated)
+        # the same end state reached by a behaviour that can be staged (the Flush enters wakeUpPeer while the session is
+        # still up); it must be a path of the TLC graph and end where the counterexample loops
+        wit = ['SStart', 'SEnq', 'KStart', 'SSessClose', 'SShut', 'SSessLambda', 'LoopWriteFails', 'LoopExit']
+        gq = graphs[0]
+        end = spec_path(gq, 'send', wit)
+        if end is not None and gq.state(end)['kpc'] == 'send' and gq.state(end)['lp'] == 'exited':
+            c = cfgs[0]['consts']
+            for i in range(8 if ck.tier == 'quick' else 20):
+                sc = {'name': 'wake-witness-%d' % i, 'mode': 'send', 'cid': 0, 'steps': [{'a': a, 'k': 0} for a in wit],
+                      'scap': c['scap'], 'spre': c['spre'], 'cwt': c['cwt'], 'need': 2, 'deadlines': [0]}
+                allsched.append(sc)
+                bygraph[sc['name']] = (gq, sc)
+        else:
+            ck.notes.append('the hand-ordered witness for the bare send is not a behaviour of the specification any more')
+    elif wres.ok:
+        ck.cov['wake_lead'] = 'TLC proves WakeReturns on this specification (%d states)' % wres.distinct
+    else:
+        ck.notes.append('the TLC run for WakeReturns did not complete: %s' % (wres.error or wres.out[-300:]))
     try:
         warm.result()
     except Exception:
         pass
-    job = {'schedules': allsched, 'bound_ms': 10000, 'tick_ms': 150}
+    job = {'schedules': allsched, 'bound_ms': 10000, 'tick_ms': 150, 'known_wake': known_wake}
     g = gorun.run_harness('^TestVS_Blocking$', HARNESS, INSTR, inputs={'job': job}, timeout=2400)
     if g.result is None:
         ck.inconc('harness produced no result (rc=%d): %s' % (g.rc, g.out[-2500:]))
@@ -365,6 +471,14 @@ def handle(ck, r, bygraph, known):
         print('SPEC-DRIFT module=Blocking at=%s' % d)
     if drift:
         ck.notes.append('%d recorded runs are not behaviours of the specification (first: %s)' % (len(drift), drift[0]))
+    ck.cov['wake_bare_send_stuck_runs'] = r.get('wake_stuck', 0)
+    if r.get('wake_stuck'):
+        if ('C11', WAKE_SLUG) in known:
+            ck.known(WAKE_SLUG, '%s [reproduced on the real code in %d staged runs: %s]' % (
+                known[('C11', WAKE_SLUG)][:200], r['wake_stuck'], r['wake_witness'][:600]))
+            ck.cov['known_finding_class_executions_pruned'] = r['wake_stuck']
+    elif ('C11', WAKE_SLUG) in known:
+        ck.notes.append('the listed finding %s did not reproduce in this run' % WAKE_SLUG)
     if r.get('eos_with_data'):
         ck.notes.append('observation outside C11 (lead for C07): ReadBytes returned end-of-stream although enough bytes had been '
                         'delivered, %d runs; e.g. %s' % (r['eos_with_data'], r['eos_witness']))
